@@ -15,6 +15,7 @@ import (
 	"net"
 	"os"
 	"path/filepath"
+	"runtime/debug"
 	"strings"
 	"sync"
 	"time"
@@ -239,17 +240,20 @@ func (sh *c20Shared) earlier() string {
 }
 
 type c20Broker struct {
-	onRequest   func(id, myAddress string) // called with every request's connect id and return address
-	shared      *c20Shared
-	addr        string
-	ln          net.Listener
-	cancel      context.CancelFunc
-	script      []string // events: reply-ok, reply-fail, legit, rogue-wrong, rogue-garbage, rogue-old, rogue-close
-	mu          sync.Mutex
-	opened      []net.Conn
-	rogueClosed map[int]bool
-	legit       net.Conn
-	reqs        int
+	onRequest      func(id, myAddress string) // called with every request's connect id and return address
+	nestedLeftOpen bool                       // a rejected proxied / nested request's broker connection was still open 1.5 s later
+	nestedVerdict  chan struct{}              // closed once the broker has seen how the rejected connection ended
+	lastRoute      string
+	shared         *c20Shared
+	addr           string
+	ln             net.Listener
+	cancel         context.CancelFunc
+	script         []string // events: reply-ok, reply-fail, legit, rogue-wrong, rogue-garbage, rogue-old, rogue-close
+	mu             sync.Mutex
+	opened         []net.Conn
+	rogueClosed    map[int]bool
+	legit          net.Conn
+	reqs           int
 }
 
 func startC20Broker(script []string) (*c20Broker, error) {
@@ -283,6 +287,39 @@ func startC20Broker(script []string) (*c20Broker, error) {
 				_ = ccb.WriteControlAd(ctx, c.Stream, ccb.NewAd(map[string]any{ccb.AttrResult: true}))
 			case "reply-fail":
 				_ = ccb.WriteControlAd(ctx, c.Stream, ccb.NewAd(map[string]any{ccb.AttrResult: false, ccb.AttrErrorString: "scripted broker failure"}))
+			case "nested-hello-right", "nested-hello-wrong", "nested-hello-empty", "nested-hello-garbage", "nested-reply-fail":
+				// streaming / nested mode: the answer comes back on the request's own connection
+				conn := c.Stream.GetConnection()
+				b.mu.Lock()
+				b.lastRoute = ccb.AdString(ad, ccb.AttrCCBRoute)
+				b.mu.Unlock()
+				if ev != "nested-reply-fail" {
+					_ = ccb.WriteControlAd(ctx, c.Stream, ccb.NewAd(map[string]any{ccb.AttrResult: true}))
+				}
+				switch ev {
+				case "nested-hello-right":
+					_, _ = conn.Write(append(c20Hello(id), refcodec.MkFrame(1, []byte("TOKEN-from-"+b.addr))...))
+					continue
+				case "nested-hello-wrong":
+					_, _ = conn.Write(c20Hello("dddddddddddddddddddddddddddddddddddddddd"))
+				case "nested-hello-empty":
+					_, _ = conn.Write(c20Hello(""))
+				case "nested-hello-garbage":
+					_, _ = conn.Write([]byte("\x01\x00\x00\x00\x20this is not a cedar hello at all!"))
+				case "nested-reply-fail":
+					_ = ccb.WriteControlAd(ctx, c.Stream, ccb.NewAd(map[string]any{ccb.AttrResult: false, ccb.AttrErrorString: "scripted broker failure"}))
+				}
+				_ = conn.SetReadDeadline(time.Now().Add(1500 * time.Millisecond))
+				_, rerr := io.ReadAll(conn)
+				var ne net.Error
+				if errors.As(rerr, &ne) && ne.Timeout() {
+					b.mu.Lock()
+					b.nestedLeftOpen = true
+					b.mu.Unlock()
+				}
+				if b.nestedVerdict != nil {
+					close(b.nestedVerdict)
+				}
 			case "legit":
 				rc, err := net.Dial("tcp", my)
 				if err != nil {
@@ -433,6 +470,71 @@ func c20DialOne(res *vlib.Result, script []string) string {
 	br.mu.Unlock()
 	res.Outcome("dial-" + outcome)
 	return outcome
+}
+
+// c20Nested: a nested (multi-hop) contact "<entry>#7#3": one streaming request to the
+// entry broker carrying the route, the answer arriving on that same connection. A
+// matching hello hands the connection back; anything else ends the dial with an error
+// AND the connection closed.
+var c20NestedMu sync.Mutex
+
+func c20Nested(res *vlib.Result, answer string) {
+	// A connection that is merely dropped is closed by the runtime when the garbage collector
+	// finalises it, which in a busy process happens within milliseconds and would hide the
+	// leak. Collection is therefore suspended while the broker watches its end.
+	c20NestedMu.Lock()
+	defer c20NestedMu.Unlock()
+	defer debug.SetGCPercent(debug.SetGCPercent(-1))
+	res.Evals++
+	res.Nontrivial++
+	b, err := startC20Broker([]string{answer})
+	if err != nil {
+		res.Violate("C20/harness", "%v", err)
+		return
+	}
+	defer b.stop()
+	b.nestedVerdict = make(chan struct{})
+	raw := b.addr + "#7#3"
+	broker, id, ok := addresses.SplitCCBContact(raw)
+	if !ok {
+		res.Violate("C20/harness", "contact %q does not parse as nested", raw)
+		return
+	}
+	conn, derr := ccb.Dial(context.Background(), []addresses.CCBContact{{BrokerAddr: broker, CCBID: id, Raw: raw}}, ccb.DialOptions{Security: c20Sec(), Stagger: -1, Timeout: 20 * time.Second})
+	if answer != "nested-hello-right" {
+		select { // let the broker see whether its connection gets closed (it waits up to 3 s)
+		case <-b.nestedVerdict:
+		case <-time.After(10 * time.Second):
+		}
+	}
+	b.mu.Lock()
+	route, leftOpen := b.lastRoute, b.nestedLeftOpen
+	b.mu.Unlock()
+	if route == "" {
+		res.Violate("C20/harness", "the request for %q did not carry a route (nested path not taken): %v", raw, derr)
+		return
+	}
+	if answer == "nested-hello-right" {
+		if derr != nil {
+			res.Violate("C20/nested/legit-not-returned", "%v", derr)
+		} else if tok := readToken(conn); tok != "TOKEN-from-"+b.addr {
+			res.Violate("C20/nested/returned-conn-is-not-the-legit-one", "token %q", tok)
+		}
+		if conn != nil {
+			_ = conn.Close()
+		}
+		res.Outcome("nested-conn")
+		return
+	}
+	if derr == nil {
+		res.Violate("C20/nested/returned-despite-"+answer, "Dial returned a connection although the entry broker answered with %s", answer)
+		_ = conn.Close()
+		return
+	}
+	if leftOpen {
+		res.Violate("C20/nested/rejected-conn-left-open/"+answer, "the dial failed (%v) but the entry broker's connection was still open 1.5 s later", derr)
+	}
+	res.Outcome("nested-error")
 }
 
 // c20Unguessable: a standard-mode dial whose reverse-connect port is a shared-port
@@ -589,7 +691,7 @@ func c20MultiBroker(res *vlib.Result, working []bool, stagger time.Duration) {
 func C20Plan() *vlib.Plan {
 	p := &vlib.Plan{
 		Property: "C20", Level: "exploration",
-		Rule:   "E-ENUM of arrival orders. (1) accept loop (in-package seam) over a scripted listener: all sequences of length <= L over 11 connection kinds {legit id, wrong id, empty id, id of an earlier request, 39-char prefix of the id, non-hello command, garbage, truncated hello, oversized ad, immediate close, hello without id}; the returned conn must be the first one that presented the id, every earlier one closed, none returned otherwise. (2) proxied request over a scripted broker stream: 11 reply shapes; a conn only after success + matching hello. (3) Dial in standard mode against in-process brokers on loopback TCP: every ordering of {reply-ok, reply-fail} x {legit, 4 rogue kinds} up to 3 events (a rogue's turn ends when it observes its own close), each run twice; 1-3 brokers with every working subset x stagger {-1, 20 ms}: the returned conn delivers the token written on the legit reverse connection. (4) 10^4 generated connect ids are 40 hex characters and pairwise distinct. Non-trivial = at least one connection/reply consumed by the dialer. (4) connect-id freshness per request: 2 and 3 scripted brokers sharing one scenario (whichever is asked first fails; the next lets a rogue present the EARLIER request's id, then the legitimate connection), sequential and staggered: all requests of one dial carry distinct ids and the rogue is never returned. (5) a dial whose reverse-connect port is an anonymous shared-port endpoint: neither the advertised return address nor the socket's file name contains any 8-character piece of the connect id.",
+		Rule:   "E-ENUM of arrival orders. (1) accept loop (in-package seam) over a scripted listener: all sequences of length <= L over 11 connection kinds {legit id, wrong id, empty id, id of an earlier request, 39-char prefix of the id, non-hello command, garbage, truncated hello, oversized ad, immediate close, hello without id}; the returned conn must be the first one that presented the id, every earlier one closed, none returned otherwise. (2) proxied request over a scripted broker stream: 11 reply shapes; a conn only after success + matching hello. (3) Dial in standard mode against in-process brokers on loopback TCP: every ordering of {reply-ok, reply-fail} x {legit, 4 rogue kinds} up to 3 events (a rogue's turn ends when it observes its own close), each run twice; 1-3 brokers with every working subset x stagger {-1, 20 ms}: the returned conn delivers the token written on the legit reverse connection. (4) 10^4 generated connect ids are 40 hex characters and pairwise distinct. Non-trivial = at least one connection/reply consumed by the dialer. (4) connect-id freshness per request: 2 and 3 scripted brokers sharing one scenario (whichever is asked first fails; the next lets a rogue present the EARLIER request's id, then the legitimate connection), sequential and staggered: all requests of one dial carry distinct ids and the rogue is never returned. (5) a dial whose reverse-connect port is an anonymous shared-port endpoint: neither the advertised return address nor the socket's file name contains any 8-character piece of the connect id. (6) a nested multi-hop contact (entry#7#3) through Dial against a scripted entry broker answering on the request's own connection with {matching hello, wrong id, empty id, garbage, failure reply}: only the matching hello yields a connection, every other answer ends in an error with the broker connection closed.",
 		Assume: []string{"(3) uses real loopback TCP and goroutines: where a failure reply and the matching hello are both available either documented outcome is accepted", "the 'nothing decisive arrives' scripts rely on the dial's own 300 ms timeout"},
 	}
 	p.Gen = func(tier string, yield func(vlib.Case)) {
@@ -685,6 +787,14 @@ func C20Plan() *vlib.Plan {
 					res.Violate("C20/dial/outcome-not-deterministic", "script [%s]: %s then %s", strings.Join(sc, ","), o1, o2)
 				}
 				res.Sample = sc
+				return res
+			}})
+		}
+		for _, ans := range []string{"nested-hello-right", "nested-hello-wrong", "nested-hello-empty", "nested-hello-garbage", "nested-reply-fail"} {
+			ans := ans
+			yield(vlib.Case{ID: "nested-contact/" + ans, Run: func() *vlib.Result {
+				res := &vlib.Result{}
+				c20Nested(res, ans)
 				return res
 			}})
 		}
